@@ -108,8 +108,8 @@ package registry
 //@   ensures{C19} not-found: r.srcPkgTypes.Scope().Lookup(name) == nil ==> iface == nil && tparams == nil && err != nil && uf("errMsg", String, err) == "interface not found: " + name
 //@   ensures{C19} not-interface: r.srcPkgTypes.Scope().Lookup(name) != nil && !isIface(r.srcPkgTypes.Scope().Lookup(name).Type()) ==> iface == nil && err != nil && hasPrefix(uf("errMsg", String, err), name + " (") && hasSuffix(uf("errMsg", String, err), ") is not an interface")
 //@   ensures{C02} full-method-set: r.srcPkgTypes.Scope().Lookup(name) != nil && isIface(r.srcPkgTypes.Scope().Lookup(name).Type()) ==> err == nil && iface == as(r.srcPkgTypes.Scope().Lookup(name).Type().Underlying(), *types.Interface).Complete()
-//@   ensures{C09} type-params-of-named: err == nil && isType(r.srcPkgTypes.Scope().Lookup(name).Type(), *types.Named) ==> tparams == as(r.srcPkgTypes.Scope().Lookup(name).Type(), *types.Named).TypeParams()
-//@   ensures{C09} no-type-params-otherwise: err == nil && !isType(r.srcPkgTypes.Scope().Lookup(name).Type(), *types.Named) ==> tparams == nil
+//@   ensures{C02,C09} type-params-of-named: err == nil && isType(r.srcPkgTypes.Scope().Lookup(name).Type(), *types.Named) ==> tparams == as(r.srcPkgTypes.Scope().Lookup(name).Type(), *types.Named).TypeParams()
+//@   ensures{C02,C09} no-type-params-otherwise: err == nil && !isType(r.srcPkgTypes.Scope().Lookup(name).Type(), *types.Named) ==> tparams == nil
 //@   ensures{C19} result-or-error: err == nil ==> iface != nil
 //@ define isIface(t) = isType(t.Underlying(), *types.Interface)
 
@@ -130,6 +130,8 @@ package registry
 //@   ensures other-maps-kept: otherMapsKept(r.imports)
 //@   ensures{C10,C11} wf: wfK(r)
 //@   ensures result-has-pkg: imprt != nil ==> imprt.pkg != nil
+//@   -- C11 (qualifiers unique): a new package whose first qualifier (source alias or package name) is already some import's qualifier goes through conflict resolution
+//@   ensures{C11} conflict-is-resolved: canon(pkg) != r.moqPkgPath && !old(dom(r.imports, canon(pkg))) && exists(string(k), old(dom(r.imports, k)) && old(qual(r.imports[k])) == newQual(r, pkg)) ==> existsEv(i, evIs(i, "call:registry.Registry.resolveImportConflict") && evArg(i, 1) == imprt)
 //@   ensures{C11,C15,C16} alias-kept-without-conflict: canon(pkg) != r.moqPkgPath && !old(dom(r.imports, canon(pkg))) && forall(string(k), old(dom(r.imports, k)) ==> old(qual(r.imports[k])) != newQual(r, pkg)) ==> imprt.Alias == r.aliases[canon(pkg)] && forall((*Package)(p), old(allocated(p)) ==> p.Alias == old(p.Alias))
 
 //@ func registry.Registry.resolveImportConflict
